@@ -1,6 +1,8 @@
 package hcv
 
 import (
+	"go/token"
+	"go/constant"
 	"fmt"
 	"go/types"
 	"sort"
@@ -671,4 +673,465 @@ func ruleContextCarriesParsedDirectives(c *Ctx, rule string) {
 	if n == 0 {
 		c.Undecided(rule, "context-directives", desc, "no store into the context's request-directive field on the exchange")
 	}
+}
+
+// ruleHexDigitSetExact (C03.16): a percent sign starts an escape only when two hexadecimal digits follow (RFC 3986 §2.1).
+// The byte predicate of the key function's tree that accepts '7' and rejects '~' (the hex-digit test; the other byte
+// predicate there is the unreserved set of C03.1) is evaluated for all 256 byte values and accepts exactly 0-9 A-F a-f:
+// a wider set "decodes" `%zz` or `50%off` in a query and merges the keys of different URIs.
+func ruleHexDigitSetExact(c *Ctx, rule string) {
+	if !c.Need(rule, "urlKey") {
+		return
+	}
+	desc := "the hex-digit test of the percent-encoding normaliser accepts exactly 0-9 A-F a-f"
+	n := 0
+	// the byte predicates called where a byte is compared with '%' (the escape scanner), other than the unreserved set
+	cands := map[*ssa.Function]bool{}
+	for _, sc := range c.reachableFrom(c.A.F("urlKey")) {
+		if !intConstsIn(sc)['%'] {
+			continue
+		}
+		instrsOf(sc, func(in ssa.Instruction) {
+			cc := callOf(in)
+			if cc == nil {
+				return
+			}
+			f := cc.StaticCallee()
+			if f == nil || !c.P.IsRepoFunc(f) || intConstsIn(f)['~'] {
+				return
+			}
+			ps, rs := sigParams(f), sigResults(f)
+			if len(ps) != 1 || len(rs) != 1 || !isBoolType(rs[0]) {
+				return
+			}
+			if b, ok := ps[0].Underlying().(*types.Basic); ok && b.Info()&types.IsInteger != 0 {
+				cands[f] = true
+			}
+		})
+	}
+	var fns []*ssa.Function
+	for f := range cands {
+		fns = append(fns, f)
+	}
+	sort.Slice(fns, func(i, j int) bool { return FuncName(fns[i]) < FuncName(fns[j]) })
+	for _, fn := range fns {
+		ev := func(x int64) (bool, error) {
+			res, err := c.An.EvalPred(fn, []constant.Value{constant.MakeInt64(x)}, 0)
+			if err != nil {
+				return false, err
+			}
+			return constant.BoolVal(res[0]), nil
+		}
+		n++
+		var wrong []string
+		for x := int64(0); x <= 255; x++ {
+			got, err := ev(x)
+			if err != nil {
+				c.Undecided(rule, "hex-digit-set", desc, c.P.ShortName(fn)+": "+err.Error())
+				return
+			}
+			want := ('0' <= x && x <= '9') || ('A' <= x && x <= 'F') || ('a' <= x && x <= 'f')
+			if got != want {
+				wrong = append(wrong, fmt.Sprintf("0x%02X", x))
+			}
+		}
+		if len(wrong) > 0 {
+			if len(wrong) > 12 {
+				wrong = append(wrong[:12], fmt.Sprintf("... (%d more)", len(wrong)-12))
+			}
+			c.Fail(rule, "hex-digit-set", desc, c.P.ShortName(fn)+": differs from the hex digits at "+strings.Join(wrong, ", ")+"; `?q=50%off` and `?q=50%8Ff`, or `?x=%zz` and `?x=3`, get the same key and each other's responses", c.P.ShortName(fn))
+		} else {
+			c.Pass(rule, "hex-digit-set", desc, c.P.ShortName(fn)+": 256 byte values evaluated")
+		}
+	}
+	if n == 0 {
+		c.Undecided(rule, "hex-digit-set", desc, "no byte predicate is called where the key function's tree compares a byte with '%'")
+	}
+}
+
+// ruleKeyReferenceKeepsEveryComponent (C03.17): when the key function builds a URL value of its own (a reference that it
+// normalises), the value carries every component the key is made of: a composite literal of url.URL in the key function's
+// tree sets Scheme, Host, a path field and RawQuery (a whole-struct copy of the input does so by construction).
+func ruleKeyReferenceKeepsEveryComponent(c *Ctx, rule string) {
+	if !c.Need(rule, "urlKey") {
+		return
+	}
+	desc := "a URL value built inside the key function carries scheme, host, path and query"
+	n := 0
+	for _, fn := range c.reachableFrom(c.A.F("urlKey")) {
+		// the URL values that are used as the reference (the argument of ResolveReference, whose path and query go into
+		// the key), and the values copied into them; the base (the receiver) carries scheme and authority only
+		isRef := map[*ssa.Alloc]bool{}
+		instrsOf(fn, func(in ssa.Instruction) {
+			cc := callOf(in)
+			if cc == nil || !callIsMethod(cc, "net/url", "URL", "ResolveReference") {
+				return
+			}
+			_, args := recvAndArgs(cc)
+			if len(args) != 1 {
+				return
+			}
+			if a, ok := args[0].(*ssa.Alloc); ok {
+				isRef[a] = true
+				for _, r := range *a.Referrers() {
+					if s, ok := r.(*ssa.Store); ok && s.Addr == a {
+						if u, ok := s.Val.(*ssa.UnOp); ok {
+							if src, ok := u.X.(*ssa.Alloc); ok {
+								isRef[src] = true
+							}
+						}
+					}
+				}
+			}
+		})
+		instrsOf(fn, func(in ssa.Instruction) {
+			al, ok := in.(*ssa.Alloc)
+			if !ok || !isRef[al] || !typeIs(derefType(al.Type()), "net/url", "URL") || al.Referrers() == nil {
+				return
+			}
+			set := map[string]bool{}
+			whole := false
+			for _, r := range *al.Referrers() {
+				switch x := r.(type) {
+				case *ssa.FieldAddr:
+					if x.Referrers() == nil {
+						continue
+					}
+					for _, r2 := range *x.Referrers() {
+						if s, ok := r2.(*ssa.Store); ok && s.Addr == x {
+							set[fieldName(al.Type(), x.Field)] = true
+						}
+					}
+				case *ssa.Store:
+					if x.Addr == al {
+						whole = true
+					}
+				}
+			}
+			if whole || len(set) == 0 {
+				return // a copy of a whole URL (patched in place), or a zero value that is only read
+			}
+			n++
+			var missing []string
+			for _, f := range []string{"Scheme", "Host", "RawQuery"} {
+				if !set[f] {
+					missing = append(missing, f)
+				}
+			}
+			if !set["Path"] && !set["RawPath"] {
+				missing = append(missing, "Path")
+			}
+			where := c.P.ShortName(fn) + "@" + c.P.InstrPos(al)
+			if len(missing) > 0 {
+				c.Fail(rule, "key-reference-complete fn="+c.P.ShortName(fn), desc, where+": the URL literal leaves out "+strings.Join(missing, ", ")+"; on the path that uses it (`/%7Ealice/inbox?page=1` - an escape that normalisation rewrites) the key ends before the query, and `?page=1`, `?page=2` and no query share one stored response", where)
+			} else {
+				c.Pass(rule, "key-reference-complete fn="+c.P.ShortName(fn), desc, where)
+			}
+		})
+	}
+	if n == 0 {
+		c.Pass(rule, "key-reference-complete (none built)", desc, "the key function's tree builds no URL literal: the reference is a whole copy of the input")
+	}
+}
+
+// ruleGateRefusalIsAnError (C19.20 / C15.12): a publishing step that is refused because its operation was abandoned is
+// reported as an error: the writer relies on it to remove its temporary file. In the file-system backend every function
+// that takes a step (a func() error parameter) and may return without calling it returns a non-nil error on that path.
+func ruleGateRefusalIsAnError(c *Ctx, rule string) {
+	if c.P.Pkg("store/fscache") == nil {
+		return
+	}
+	desc := "a refused publishing step is reported as an error (the writer removes its temporary file)"
+	n := 0
+	for _, fn := range c.fsBackendFuncs() {
+		var step *ssa.Parameter
+		for _, p := range fn.Params {
+			if sig, ok := p.Type().Underlying().(*types.Signature); ok && sig.Params().Len() == 0 && sig.Results().Len() == 1 && isErrorType(sig.Results().At(0).Type()) {
+				step = p
+			}
+		}
+		rs := sigResults(fn)
+		if step == nil || len(rs) != 1 || !isErrorType(rs[0]) {
+			continue
+		}
+		// returns that are not the step's result
+		instrsOf(fn, func(in ssa.Instruction) {
+			r, ok := in.(*ssa.Return)
+			if !ok {
+				return
+			}
+			v := c.An.RetVal(r, 0)
+			viaStep := false
+			c.P.TraceBack(v, TraceOpts{NoParams: true, NoHeapFields: true}, func(x ssa.Value, _ []int) bool {
+				if call, ok := x.(*ssa.Call); ok && call.Call.Value == ssa.Value(step) {
+					viaStep = true
+					return false
+				}
+				return true
+			})
+			n++
+			where := c.P.ShortName(fn) + "@" + c.P.InstrPos(r)
+			nilOnly := false
+			for _, root := range c.P.Roots(v, TraceOpts{NoParams: true, NoHeapFields: true}) {
+				if isNilConst(root) {
+					nilOnly = true
+				}
+			}
+			if nilOnly && !viaStep {
+				c.Fail(rule, "gate-refusal-is-error fn="+c.P.ShortName(fn), desc, where+": the function returns nil without having run the step; a Set that ran into the operation timeout believes its rename happened, leaves `.tmp-<pid>-<seq>` behind, and with `timeout=1ns` thirty requests leave thirty files that no key listing shows", where)
+			} else {
+				c.Pass(rule, "gate-refusal-is-error fn="+c.P.ShortName(fn), desc, where)
+			}
+		})
+	}
+	if n == 0 {
+		c.Undecided(rule, "gate-refusal-is-error", desc, "no function of the file-system backend takes a publishing step")
+	}
+}
+
+// ruleResponseDelayFromEntryTimes (C11.20 / C01.29): in the current-age function the difference that is added to the Age
+// field's value is the response delay (RFC 9111 §4.2.3: corrected_age_value = age_value + response_delay); both of its
+// operands are bound, at every call site, to the entry's own times - never to the decoded Date, which belongs into the
+// apparent age only. With Date and request time exchanged every response that passed an upstream cache (Age: 100, Date
+// 100 s old) is served with Age: 200.
+func ruleResponseDelayFromEntryTimes(c *Ctx, rule string) {
+	if !c.Need(rule, "currentAge") {
+		return
+	}
+	desc := "the difference added to the Age field's value has both operands bound to the entry's request and response time"
+	ca := c.A.F("currentAge")
+	isTimeParam := func(v ssa.Value) *ssa.Parameter {
+		p, ok := c.An.canon(v).(*ssa.Parameter)
+		if ok && p.Parent() == ca && typeIs(p.Type(), "time", "Time") {
+			return p
+		}
+		return nil
+	}
+	// values derived from the Age field
+	fromAge := func(v ssa.Value) bool {
+		hit := false
+		c.P.TraceBack(v, TraceOpts{ThroughOps: true, ThroughExtern: true, NoParams: true, NoHeapFields: true}, func(x ssa.Value, _ []int) bool {
+			if call, ok := x.(*ssa.Call); ok && callIsMethod(&call.Call, "net/http", "Header", "Get") {
+				if _, args := recvAndArgs(&call.Call); len(args) == 1 {
+					if s, ok := constStr(args[0]); ok && strings.EqualFold(s, "Age") {
+						hit = true
+					}
+				}
+			}
+			return !hit
+		})
+		return hit
+	}
+	subsIn := func(v ssa.Value) []*ssa.Call {
+		var out []*ssa.Call
+		c.P.TraceBack(v, TraceOpts{ThroughOps: true, ThroughExtern: true, NoParams: true, NoHeapFields: true}, func(x ssa.Value, _ []int) bool {
+			if call, ok := x.(*ssa.Call); ok && callIsMethod(&call.Call, "time", "Time", "Sub") {
+				out = append(out, call)
+				return false
+			}
+			return true
+		})
+		return out
+	}
+	var delays []*ssa.Call
+	instrsOf(ca, func(in ssa.Instruction) {
+		var ops []ssa.Value
+		switch x := in.(type) {
+		case *ssa.BinOp:
+			if x.Op == token.ADD && typeIs(x.Type(), "time", "Duration") {
+				ops = []ssa.Value{x.X, x.Y}
+			}
+		case *ssa.Call:
+			if f := x.Call.StaticCallee(); f != nil && c.P.IsRepoFunc(f) && len(x.Call.Args) == 2 && typeIs(x.Type(), "time", "Duration") &&
+				typeIs(x.Call.Args[0].Type(), "time", "Duration") && typeIs(x.Call.Args[1].Type(), "time", "Duration") {
+				ops = x.Call.Args
+			}
+		}
+		if len(ops) != 2 {
+			return
+		}
+		for i := 0; i < 2; i++ {
+			if fromAge(ops[i]) && !fromAge(ops[1-i]) {
+				delays = append(delays, subsIn(ops[1-i])...)
+			}
+		}
+	})
+	if len(delays) == 0 {
+		c.Undecided(rule, "response-delay-operands", desc, "no sum of the Age field's value and a difference of times in "+c.P.ShortName(ca))
+		return
+	}
+	fieldsOf := func(p *ssa.Parameter) (fields map[int]bool, calls int) {
+		fields = map[int]bool{}
+		c.P.TraceBack(p, TraceOpts{NoHeapFields: true}, func(x ssa.Value, _ []int) bool {
+			if isTestOnly(c, instrParent(x)) {
+				return false
+			}
+			if u, ok := x.(*ssa.UnOp); ok {
+				if fa, ok := u.X.(*ssa.FieldAddr); ok && isPtrToNamed(fa.X.Type(), c.A.EntryT) && typeIs(u.Type(), "time", "Time") {
+					fields[fa.Field] = true
+					return false
+				}
+			}
+			if _, ok := x.(*ssa.Call); ok {
+				calls++
+				return false
+			}
+			return true
+		})
+		return
+	}
+	for _, d := range delays {
+		recv, args := recvAndArgs(&d.Call)
+		where := c.P.ShortName(ca) + "@" + c.P.InstrPos(d)
+		bad := ""
+		for _, op := range []ssa.Value{recv, args[0]} {
+			p := isTimeParam(op)
+			if p == nil {
+				bad = "an operand is not a time parameter of the function"
+				continue
+			}
+			f, calls := fieldsOf(p)
+			if calls > 0 || len(f) != 1 {
+				bad = "parameter " + p.Name() + " is bound to a decoded header value (or to no single entry field) at a call site"
+			}
+		}
+		if bad != "" {
+			c.Fail(rule, "response-delay-operands", desc, where+": "+bad+"; the age that is already in the Date is added to the Age field instead of being compared with it: a reply of an upstream cache with `Age: 100` and a Date 100 s old is served with `Age: 200`", where)
+		} else {
+			c.Pass(rule, "response-delay-operands", desc, where)
+		}
+	}
+}
+
+func instrParent(v ssa.Value) *ssa.Function {
+	if in, ok := v.(ssa.Instruction); ok {
+		return in.Parent()
+	}
+	if p, ok := v.(*ssa.Parameter); ok {
+		return p.Parent()
+	}
+	return nil
+}
+
+// ruleKeyIgnoresUserinfo (C07.18 / C03.18): the userinfo of a URL is no part of the key (two spellings of one target
+// URI - `http://alice:pw@h/doc` and `http://h/doc` - name the same stored responses, and a Location never carries it):
+// no function of the key function's tree reads the User field of a URL.
+func ruleKeyIgnoresUserinfo(c *Ctx, rule string) {
+	if !c.Need(rule, "urlKey") {
+		return
+	}
+	desc := "the key function does not read the userinfo of the URL"
+	bad := ""
+	n := 0
+	for _, fn := range c.reachableFrom(c.A.F("urlKey")) {
+		n++
+		instrsOf(fn, func(in ssa.Instruction) {
+			if fa, ok := in.(*ssa.FieldAddr); ok && typeIs(derefType(fa.X.Type()), "net/url", "URL") && fieldName(fa.X.Type(), fa.Field) == "User" {
+				// a store of nil (clearing it) is fine; a load is a read
+				for _, r := range *fa.Referrers() {
+					if u, ok := r.(*ssa.UnOp); ok && u.Op == token.MUL {
+						bad = c.P.ShortName(fn) + "@" + c.P.InstrPos(u)
+					}
+				}
+			}
+		})
+	}
+	if bad != "" {
+		c.Fail(rule, "key-ignores-userinfo", desc, bad+": the userinfo goes into the key; `POST http://alice:secret@h/doc` no longer invalidates what `GET http://h/doc` stored, and a same-origin Location (which never carries userinfo) no longer names the entries of a client that uses such URLs", bad)
+		return
+	}
+	c.Pass(rule, "key-ignores-userinfo", desc, fmt.Sprintf("%d function(s) of the key function's tree", n))
+}
+
+// ruleRootIsTheCreatedDirectory (C14.27): the directory the file-system backend opens as its root is the one it has just
+// created from base directory AND application name: the argument of os.OpenRoot is the same value as the argument of
+// os.MkdirAll, and it derives from a filepath.Join. Two applications under one base directory are two maps.
+func ruleRootIsTheCreatedDirectory(c *Ctx, rule string) {
+	if c.P.Pkg("store/fscache") == nil {
+		return
+	}
+	desc := "the root handle is opened on the directory that was created for base directory and application name"
+	n := 0
+	for _, fn := range c.fsBackendFuncs() {
+		var opens, mkdirs []*ssa.Call
+		instrsOf(fn, func(in ssa.Instruction) {
+			call, ok := in.(*ssa.Call)
+			if !ok {
+				return
+			}
+			if callIsPkgFunc(&call.Call, "os", "OpenRoot") {
+				opens = append(opens, call)
+			}
+			if callIsPkgFunc(&call.Call, "os", "MkdirAll") {
+				mkdirs = append(mkdirs, call)
+			}
+		})
+		for _, o := range opens {
+			n++
+			where := c.P.ShortName(fn) + "@" + c.P.InstrPos(o)
+			same := false
+			for _, m := range mkdirs {
+				if c.sameStringValue(o.Call.Args[0], m.Call.Args[0]) && instrDominates(m, o) {
+					same = true
+				}
+			}
+			joined := false
+			c.P.TraceBack(o.Call.Args[0], TraceOpts{NoParams: true}, func(x ssa.Value, _ []int) bool {
+				if call, ok := x.(*ssa.Call); ok && callIsPkgFunc(&call.Call, "path/filepath", "Join") {
+					joined = true
+					return false
+				}
+				return true
+			})
+			switch {
+			case !same:
+				c.Fail(rule, "root-is-created-dir", desc, where+": the directory given to os.OpenRoot is not the value given to the os.MkdirAll in front of it; with `?appname=a` and `?appname=b` under one base directory both backends read and write the same files: b.Get returns what a.Set stored, b.Delete removes a's entry", where)
+			case !joined:
+				c.Fail(rule, "root-is-created-dir", desc, where+": the directory given to os.OpenRoot does not derive from a filepath.Join (base directory and application name)", where)
+			default:
+				c.Pass(rule, "root-is-created-dir", desc, where)
+			}
+		}
+	}
+	if n == 0 {
+		c.Undecided(rule, "root-is-created-dir", desc, "no os.OpenRoot call in the file-system backend")
+	}
+}
+
+// sameStringValue: two string values are the same SSA value, or loads of the same struct field of the same base with no
+// store to that field between them in the function (approximated: the same field address expression and the loads'
+// nearest preceding store is the same instruction).
+func (c *Ctx) sameStringValue(a, b ssa.Value) bool {
+	if c.An.sameCanon(a, b) {
+		return true
+	}
+	la, ok1 := a.(*ssa.UnOp)
+	lb, ok2 := b.(*ssa.UnOp)
+	if !ok1 || !ok2 {
+		return false
+	}
+	fa, ok1 := la.X.(*ssa.FieldAddr)
+	fb, ok2 := lb.X.(*ssa.FieldAddr)
+	if !ok1 || !ok2 || fa.Field != fb.Field || !c.An.sameCanon(fa.X, fb.X) {
+		return false
+	}
+	// the last store to the field that dominates each load must be the same one
+	last := func(ld *ssa.UnOp) *ssa.Store {
+		var best *ssa.Store
+		instrsOf(ld.Parent(), func(in ssa.Instruction) {
+			s, ok := in.(*ssa.Store)
+			if !ok {
+				return
+			}
+			sfa, ok := s.Addr.(*ssa.FieldAddr)
+			if !ok || sfa.Field != fa.Field || !c.An.sameCanon(sfa.X, fa.X) || !instrDominates(s, ld) {
+				return
+			}
+			if best == nil || instrDominates(best, s) {
+				best = s
+			}
+		})
+		return best
+	}
+	return last(la) == last(lb)
 }
